@@ -95,6 +95,28 @@ def _check(cs):
                     break
         if why is None and [interval(tl) for tl in A.nested_termlist] != [{"lo": float(iv["lo"]), "hi": float(iv["hi"])} for iv in cs["a"]]:
             why = "an operation changed its operand"
+        if why is None and cs["disjA"] and cs["disjB"] and cs["a"] and cs["b"]:
+            # compound contracts (assumptions over the input x, guarantees over the output y): merge intersects both sides
+            from pacti.contracts import PolyhedralIoContractCompound
+
+            def side(alts, v, force):
+                return NestedPolyhedra([gen.mk_list([({v: 1}, iv["hi"]), ({v: -1}, -iv["lo"])]) for iv in alts], force)
+
+            def ivs(nl, v):
+                out = []
+                for tl in nl.nested_termlist:
+                    his = [float(t.constant) for t in tl.terms if list(t.variables.values()) == [1.0]]
+                    los = [-float(t.constant) for t in tl.terms if list(t.variables.values()) == [-1.0]]
+                    out.append({"lo": max(los), "hi": min(his)})
+                return out
+
+            y = Var("y")
+            c1 = PolyhedralIoContractCompound(side(cs["a"], "x", True), side(cs["b"], "y", False), [x], [y])
+            c2 = PolyhedralIoContractCompound(side(cs["b"], "x", True), side(cs["a"], "y", False), [x], [y])
+            m = c1.merge(c2)
+            f_ = lambda lst: [{"lo": float(iv["lo"]), "hi": float(iv["hi"])} for iv in lst]  # noqa: E731
+            if ivs(m.a, "x") != f_(cs["meet"]) or ivs(m.g, "y") != f_(cs["meetBA"]):
+                why = "merge of compound contracts gives assumptions %s / guarantees %s, the specification gives %s / %s" % (ivs(m.a, "x"), ivs(m.g, "y"), f_(cs["meet"]), f_(cs["meetBA"]))
     except Exception as e:  # noqa: BLE001
         why = "raised %s: %s" % (type(e).__name__, str(e)[:80])
     return why
